@@ -10,7 +10,9 @@
    Composed with the AlignedProp monitor: ConsumerTake calls PFlush(v, delta, TRUE, now). *)
 EXTENDS Integers, Sequences, TLC
 
-CONSTANTS I, O, S, MaxAdvances, MaxStep, RoundUp   \* RoundUp = TRUE: a deliberately wrong sendTick that rounds up (vacuity)
+CONSTANTS I, O, S, MaxAdvances, MaxStep, RoundUp, TowardZero
+\* deliberately wrong variants (vacuity): RoundUp = TRUE: sendTick rounds up;  TowardZero = TRUE: boundaries computed with a remainder that takes
+\* the sign of the dividend (Go's %), which rounds towards zero when start - offset lies before the reference instant (round-3 m2)
 
 VARIABLES now, gpc, tmrDeadline, tmrC, tkrDeadline, tkrC, outC, lastFlush, advances,
           cfg, last, nflush, ready, bad
@@ -19,7 +21,7 @@ ivars == <<now, gpc, tmrDeadline, tmrC, tkrDeadline, tkrC, outC, lastFlush, adva
 vars == <<ivars, cfg, last, nflush, ready, bad>>
 MonUnch == UNCHANGED <<cfg, last, nflush, ready, bad>>
 
-Trunc(t, i) == t - (t % i)
+Trunc(t, i) == IF TowardZero /\ t < 0 THEN 0 - ((0 - t) - ((0 - t) % i)) ELSE t - (t % i)
 Rounded(t) == IF RoundUp THEN Trunc(t - O + I - 1, I) + O ELSE Trunc(t - O, I) + O
 
 Init == /\ now = S /\ gpc = "G0" /\ tmrDeadline = -1 /\ tmrC = -1 /\ tkrDeadline = -1 /\ tkrC = -1 /\ outC = -1
